@@ -55,6 +55,7 @@ def run_T(rep, g, fx=None, prop='C01'):
         if new_assume == assume:
             break
         assume = new_assume
+    ta.assume_t1 = set(assume)
     for f in inst:
         keyed = results[f.path]
         if not keyed:
@@ -205,8 +206,9 @@ def run_P(rep, g, reach):
 
 def run(rep, ctx):   # noqa: F811  (final definition)
     g = ctx.g
-    run_T(rep, g)
+    inst, ta = run_T(rep, g)
     reach = run_T3(rep, g)
+    run_T4(rep, g, reach, ta)
     run_P(rep, g, reach)
     run_N(rep, g, reach)
 
@@ -289,3 +291,177 @@ def _compared_back(fn, st, sty):
                         if sd and sd[1] != 'term' and sd[2][0] == 'use' and sd[2][1][0] in ('c', 'm') and sd[2][1][1] and sd[2][1][1][0] in widened:
                             return True
     return False
+
+
+def run_T4(rep, g, reach, ta):
+    """T4: every natural loop in read-reachable code is driven by a bounded std iterator, consumes
+    input from a reader that persists across iterations on every cycle, drains a container, or is
+    reviewed."""
+    from .. import term as T
+    rep.rule('T4', 'loop progress: each natural loop in read-reachable code is (a) a for-loop over a bounded std iterator, '
+             '(b) a consuming loop (every cycle passes a call that consumes >= 1 byte from a reader defined outside the loop, '
+             'or delegates to an iterator instance), (c) a container-draining loop, or has an exact-key reviewed reason')
+    n = 0
+    from collections import Counter
+    kc = Counter()
+    for p in sorted(reach):
+        fn = g.fns[p]
+        if len(fn.blocks) < 3:
+            continue
+        loops = T.natural_loops(fn)
+        for h, body in sorted(loops.items()):
+            n += 1
+            cls, why = classify_loop(g, fn, h, body, ta)
+            base = '%s|loop' % fn.path
+            kc[base] += 1
+            key = base if kc[base] == 1 else '%s#%d' % (base, kc[base])
+            line = fn.term(h).get('line') or (fn.stmts(h)[0][3] if fn.stmts(h) else fn.line)
+            if cls:
+                rep.ok('T4', key, '%s loop' % cls, fn.loc(line), why=why)
+            else:
+                rep.bad('T4', key, 'loop is not driven by a bounded iterator, does not consume input on every cycle and does not drain a container: %s' % why, fn.loc(line))
+    rep.floor('T4', 'natural loops classified', n, 60)
+    return n
+
+
+UNBOUNDED_ITERS = ('RangeFrom', 'Repeat', 'Cycle', 'Successors', 'FromFn', 'RepeatWith')
+DRAIN_CALLS = {'pop', 'pop_front', 'pop_back', 'swap_remove', 'remove', 'take'}
+
+
+def classify_loop(g, fn, h, body, ta):
+    from .. import term as T
+    progress_blocks = set()
+    why = []
+    defined_in_loop = set()
+    for b in body:
+        for st in fn.stmts(b):
+            if st[0] == 'a' and len(st[1]) == 1:
+                defined_in_loop.add(st[1][0])
+        t = fn.term(b)
+        if t['k'] == 'call' and len(t['d']) == 1:
+            defined_in_loop.add(t['d'][0])
+    for b in body:
+        t = fn.term(b)
+        if t['k'] != 'call':
+            continue
+        f = t['f']
+        if 'ptr' in f:
+            continue
+        name = f.get('name')
+        path = f.get('path', '')
+        res = f.get('res') or ''
+        # (a) iterator-driven
+        if path == 'core::iter::Iterator::next':
+            if res and (res.startswith('<core::') or res.startswith('core::') or res.startswith('<alloc::') or
+                        res.startswith('alloc::') or res.startswith('<hashbrown') or res.startswith('<indexmap')):
+                if not any(u in res for u in UNBOUNDED_ITERS) and not any(u in (f.get('self') or '') for u in UNBOUNDED_ITERS):
+                    # the iterator object must live outside the loop (not re-created per iteration)
+                    recv = _recv_root(fn, t['a'][0]) if t['a'] else None
+                    if recv is not None and recv not in _created_in_loop(fn, body):
+                        progress_blocks.add(b)
+                        why.append('std iterator %s' % res.split(' as ')[0][:60])
+                        continue
+            tg = g.callee_targets(f)
+            if tg and all(x in g.fns and g.fns[x].impl_trait == 'core::iter::Iterator' for x in tg):
+                recv = _recv_root(fn, t['a'][0]) if t['a'] else None
+                if recv is not None and recv not in _created_in_loop(fn, body):
+                    progress_blocks.add(b)
+                    why.append('in-crate Iterator %s' % tg[0][:60])
+                    continue
+        # (b) consuming call on a persistent reader
+        if f.get('trait') == 'read::reader::Reader' and name in T.CONSUME_ALWAYS:
+            recv = _recv_root(fn, t['a'][0]) if t['a'] else None
+            if recv is not None and recv not in _created_in_loop(fn, body):
+                progress_blocks.add(b)
+                why.append('consumes via %s' % name)
+                continue
+        tg = g.callee_targets(f)
+        if tg and t['a']:
+            recv = _recv_root(fn, t['a'][0])
+            persistent = recv is not None and recv not in _created_in_loop(fn, body)
+            if persistent and all(ta.summ('tp', x) or ta.summ('tps', x) for x in tg):
+                progress_blocks.add(b)
+                why.append('callee %s consumes on Ok' % name)
+                continue
+            if persistent and all(x in ta.instance_paths for x in tg):
+                progress_blocks.add(b)
+                why.append('delegates to iterator instance %s' % name)
+                continue
+        # (c) draining
+        if name in DRAIN_CALLS and (path.startswith('alloc::') or path.startswith('core::') or 'ArrayVec' in path or 'Vec' in (f.get('self') or '')):
+            progress_blocks.add(b)
+            why.append('drains via %s' % name)
+    if not progress_blocks:
+        return None, 'no progress call in the loop body'
+    # must-pass-through: is there a cycle through the header avoiding all progress blocks?
+    if h in progress_blocks:
+        return _cls(why), '; '.join(sorted(set(why)))
+    seen = set()
+    st = [s for s in fn.succ[h] if s in body and s not in progress_blocks]
+    while st:
+        x = st.pop()
+        if x == h:
+            return None, 'a cycle avoids every progress call (%s)' % '; '.join(sorted(set(why)))
+        if x in seen:
+            continue
+        seen.add(x)
+        for s in fn.succ[x]:
+            if s in body and s not in progress_blocks:
+                st.append(s)
+    return _cls(why), '; '.join(sorted(set(why)))
+
+
+def _cls(why):
+    w = ' '.join(why)
+    if 'iterator' in w.lower() and 'consumes' not in w:
+        return 'iterator-driven'
+    if 'drains' in w and 'consumes' not in w:
+        return 'draining'
+    return 'consuming'
+
+
+def _recv_root(fn, op, depth=8):
+    """base local of the place a receiver reference points into"""
+    if op[0] not in ('c', 'm'):
+        return None
+    pl = op[1]
+    base = pl[0]
+    for _ in range(depth):
+        if fn.lname(base) is not None or base <= fn.argc:
+            return base
+        sd = fn.single_def(base)
+        if sd is None or sd[1] == 'term':
+            return base
+        rv = sd[2]
+        if rv[0] in ('ref', 'ptr', 'cfd'):
+            base = rv[1][0]
+        elif rv[0] == 'use' and rv[1][0] in ('c', 'm'):
+            base = rv[1][1][0]
+        else:
+            return base
+    return base
+
+
+def _created_in_loop(fn, body):
+    """named locals (or temps) that receive a fresh value from a call / aggregate inside the loop"""
+    out = set()
+    for b in body:
+        for st in fn.stmts(b):
+            if st[0] == 'a' and len(st[1]) == 1 and st[2][0] in ('agg',):
+                out.add(st[1][0])
+        t = fn.term(b)
+        if t['k'] == 'call' and len(t['d']) == 1:
+            nm = t['f'].get('name')
+            if nm in ('clone', 'into_iter', 'iter', 'iter_mut', 'new', 'default', 'entries', 'split', 'range', 'range_from'):
+                out.add(t['d'][0])
+    # propagate through plain moves
+    changed = True
+    while changed:
+        changed = False
+        for b in body:
+            for st in fn.stmts(b):
+                if st[0] == 'a' and len(st[1]) == 1 and st[2][0] == 'use' and st[2][1][0] in ('c', 'm') \
+                        and st[2][1][1][0] in out and st[1][0] not in out:
+                    out.add(st[1][0])
+                    changed = True
+    return out
